@@ -141,6 +141,44 @@ def undo_cases(quick):
                         cases.append(('undo/%s/%s/before' % (tag, vname), before, vd))
     return cases
 
+# ---- part C: filesystem with an EXTERNAL journal device: both files are targets of a read-only invocation ---------------------------------------------------
+def extj_job(j):
+    cid, jfields, fsfields, label, argvt = j
+    import struct
+    w = fsweep.scratch_worker(); p = os.path.join(w, 'c13x.img'); jp = os.path.join(w, 'c13x.jdev'); out = os.path.join(w, 'c13x.out')
+    d = bytearray(fsweep.base_data('extj')); jd = bytearray(fsweep.base_data('extjdev'))
+    for off, fmt, val in jfields: struct.pack_into(fmt, jd, off, val)
+    for off, fmt, val in fsfields: struct.pack_into(fmt, d, off, val)
+    with open(p, 'wb') as f: f.write(d)
+    with open(jp, 'wb') as f: f.write(jd)
+    argv = [a.replace('{img}', p).replace('{jdev}', jp).replace('{out}', out) for a in argvt]
+    rc, txt = run(argv, timeout=20)
+    bad = []
+    if open(jp, 'rb').read() != bytes(jd): bad.append((label, rc, 0, 'the external journal device was modified'))
+    if open(p, 'rb').read() != bytes(d): bad.append((label, rc, 0, 'the filesystem image was modified'))
+    for f_ in (out,):
+        if os.path.exists(f_): os.unlink(f_)
+    return (cid, 1, bad)
+
+def extj_jobs():
+    T = TOOLS_
+    JSB = 2048          # journal superblock of the 1 KiB-block journal device
+    jvars = [('clean', []), ('s_errno', [(JSB + 0x20, '>i', -5)]), ('s_start', [(JSB + 0x1C, '>I', 1)]), ('s_errno+s_start', [(JSB + 0x20, '>i', -30), (JSB + 0x1C, '>I', 3)]),
+             ('bad-magic', [(JSB, '>I', 0x12345678)]), ('nr_users0', [(JSB + 0x40, '>I', 0)])]
+    fvars = [('', []), ('needs_recovery', [(1024 + 0x60, '<I', None)])]
+    import struct
+    inc = struct.unpack_from('<I', fsweep.base_data('extj'), 1024 + 0x60)[0]
+    inv = [('e2fsck -n -j', [T['e2fsck'], '-n', '-j', '{jdev}', '{img}']), ('e2fsck -fn -j', [T['e2fsck'], '-fn', '-j', '{jdev}', '{img}']), ('e2fsck -n (journal not named)', [T['e2fsck'], '-n', '{img}']),
+           ('dumpe2fs jdev', [T['dumpe2fs'], '{jdev}']), ('dumpe2fs fs', [T['dumpe2fs'], '{img}']), ('debugfs logdump -f', [T['debugfs'], '-R', 'logdump -f {jdev}', '{img}']),
+           ('debugfs -R stats jdev', [T['debugfs'], '-R', 'stats', '{jdev}']), ('tune2fs -l jdev', [T['tune2fs'], '-l', '{jdev}']), ('e2image -r', [T['e2image'], '-r', '{img}', '{out}'])]
+    jobs = []
+    for jn, jf in jvars:
+        for fn, ff in fvars:
+            ff2 = [(o, f, (inc | 4) if v is None else v) for o, f, v in ff]
+            for label, argv in inv:
+                jobs.append(('extj/%s%s :: %s' % (jn, '+' + fn if fn else '', label), jf, ff2, label, argv))
+    return jobs
+
 def main(tier, only=None):
     global TOOLS_, SCRIPT_
     ck = Check('C13', tier, 'fault_enumeration')
@@ -162,6 +200,13 @@ def main(tier, only=None):
         runs += n
         for label, rc, dlen, diffs in bad:
             ck.violation('%s :: %s' % (mid, label), {'base': job[1], 'parts': job[2], 'invocation': label, 'exit': rc, 'size_change': dlen, 'first_changed_sector_offsets': diffs})
+    # part C: external journal pair
+    xj = extj_jobs() if not only else []
+    for (cid, n, bad) in pmap(extj_job, xj, chunksize=2):
+        runs += n
+        for label, rc, dlen, what in bad:
+            ck.violation(cid, {'part': 'C', 'invocation': label, 'exit': rc, 'what': what})
+    ck.part('C_external_journal', invocations=len(xj), rule='corpus pair extj/extjdev x journal superblock states (clean, s_errno set, s_start set, both, bad magic, no users) x needs_recovery on/off x 9 read-only invocations naming the journal device or the filesystem; both files must stay byte-identical')
     # part B: e2undo -n
     ucases = [] if only else undo_cases(quick)
     globals()['UCASES'] = ucases
